@@ -9,14 +9,14 @@ from .. import heap as H
 from . import bip_common as B
 from .unify_common import struct_eq, build_pterm, same_state
 
-ANCHORS = ['next_solution_append', 'make_linked_list']
-WITNESSES = {'all': ['succeeds', 'fails', 'bound-tail', 'nested-element', 'through-variable', 'out-bound-right', 'out-bound-wrong']}
+ANCHORS = ['next_solution_append', 'make_linked_list', 'recreate_variables']
+WITNESSES = {'all': ['succeeds', 'fails', 'bound-tail', 'nested-element', 'through-variable', 'out-bound-right', 'out-bound-wrong', 'in-a-rule-body']}
 OPTS = {'quick': {'selfcheck_mod': 25, 'budget_s': 280}, 'thorough': {'selfcheck_mod': 200, 'budget_s': 2400}}
 STEP_LIMIT = 120_000
 NATIVE_TIMEOUT = 5.0
 BOUNDS = {
     'quick': 'append(T1..Tn, Out), n = 1-3, each Ti from: a, symbolic i64, f(a), [], [b], [b, c], [[b]], [b, []], [b | $T] with $T bound to [c] or [], bound through a second variable, or bound to a list that itself ends in a bound tail, each also through a variable bound to it '
-             '(directly or via a second variable); Out unbound, bound to the right list, bound to a wrong list; asked twice; 120k-statement step limit (a spin shows as a hang)',
+             '(directly or via a second variable); Out unbound, bound to the right list, bound to a wrong list; asked twice; 120k-statement step limit (a spin shows as a hang); 30 programs with append in a rule body (arguments with variables inside complex terms and lists, filled in from the head), answers compared with the reference',
     'thorough': 'n up to 4 and tails bound through a chain of two variables',
 }
 OUTSIDE = 'lists with an unbound tail variable as append input; arguments that are unbound variables'
@@ -37,7 +37,47 @@ def cases(tier, seed):
             for outk in (('unbound', 'right', 'wrong') if n <= 2 else ('unbound',)):
                 out.append({'id': 'append(%s) out %s' % (', '.join('%s/%d' % (txt(a), c) for a, c in combo), outk),
                             'args': [[a, c] for a, c in combo], 'out': outk})
+    from .. import progs as P
+    for i, (cl, q) in enumerate(rule_programs()):
+        out.append({'id': 'in a rule: %s ?- %s' % (P.ctext(cl[0]), P.ttext(q)), 'fam': 'rule', 'i': i})
     return out
+
+
+def rule_programs():
+    """append written in a rule body: its arguments go through the renaming of the fetched clause and get their values from the head"""
+    from ..progs import V, A, C, L, I, gc, gb, AND, U as UNI
+    X, Y, O, Lv = V('X'), V('Y'), V('Out'), V('L')
+    ap = lambda *a: gb('append', *a)
+    bodies = [ap(L(C('f', X)), A('b'), O), ap(L(X), L(C('g', X, Y)), O), ap(X, L(A('k')), O), ap(L(L(X)), L(), O), ap(C('f', X), C('f', C('g', Y)), O),
+              AND(UNI(Lv, L(X, tail=Y)), ap(Lv, A('z'), O)), AND(UNI(Lv, L(C('f', X), L(Y))), ap(A('z'), Lv, O)), ap(L(I(1), C('f', C('f', X))), Y, O),
+              ap(L(A('a'), tail=Y), X, O), AND(gc('l', Lv), ap(Lv, L(C('f', X)), O))]
+    out = []
+    for b in bodies:
+        for q in (C('t', A('a'), L(A('b')), O), C('t', L(A('a'), A('b')), L(), O), C('t', I(7), L(L(A('c'))), O)):
+            out.append(([(C('t', X, Y, O), b)], q))
+    return out
+
+
+def run_rule(drv, case):
+    from .. import progs as P
+    from .. import refsld as S
+    from . import prog_common as PC
+    m = drv.m
+    clauses, query = rule_programs()[case['i']]
+    clauses = [P.inst(m, c, {}) for c in PC.needed_base(clauses)] + clauses
+    desc = case['id']
+    try:
+        ref = P.ref_search(m, clauses, query, 4)
+    except S.Outside:
+        return {'tags': ['outside-claim'], 'nontrivial': False}
+    kb = P.build_kb(drv, clauses)
+    try:
+        run_ = P.impl_search(drv, kb, query, 4, 0)
+    except ScenarioEnd as e:
+        raise Violation('rule-%s' % e.why[0], '%s: %s' % (desc, e.why[1][:200]))
+    problem = P.compare_runs(m, run_, ref, desc)
+    if problem is not None: raise Violation('rule-' + problem[0], problem[1])
+    return {'tags': ['in-a-rule-body'] + (['succeeds'] if run_.answers else ['fails']), 'note': desc}
 
 
 def txt(a):
@@ -48,6 +88,7 @@ def txt(a):
 
 
 def run(drv, case):
+    if case.get('fam') == 'rule': return run_rule(drv, case)
     m = drv.m
     env = B.Env(drv, first_id=10)
     terms, want = [], []
